@@ -17,7 +17,7 @@ Proof.
 Qed.
 
 Lemma do_op_user s o : user (do_op s o) = user s.
-Proof. destruct o; cbn; [apply do_open_user|reflexivity]. Qed.
+Proof. destruct o; cbn; [apply do_open_user|reflexivity|]. destruct (nth_error (pending s) i); reflexivity. Qed.
 
 Lemma run_ops_user os : forall s, user (run_ops s os) = user s.
 Proof.
